@@ -45,6 +45,10 @@ Check (C10_build_state : forall ps s4 cat,
     clookup (changes s4) (fst tree) = Some (PDict (tree_dict kids), 0) /\ snd tree = 0 /\ fst tree < lenN (refs s4) /\
     Forall2 (page_written s4 tree) kids ps).
 
+Check (C10_load : forall read_classic ps info s' tr' c,
+  build ps info = Ok (s', tr', None) -> lenN ps < 300000 -> lenN (backend s') < 2 ^ 64 ->
+  exists s3 td, load parse_obj read_classic (backend s') c = Ok (s3, td) /\ reloaded s' s3).
+
 (* the definitions the statements are made of (a weakened definition fails here) *)
 Check (eq_refl : valid_struct = fun (b : bytes) (tbl : list xent) =>
   prefixb HEADER b = true /\
